@@ -54,6 +54,7 @@ THEOREMS = [
     # the lattice-site test at the caller's tolerance: exact sites pass any tolerance, monotone, periodic; the setting
     # the conversion works with ('t' -> t2 for a cell passing the t2 test at the caller's tolerances)
     'C04.onSite_imp_onSiteTol', 'C04.onSiteTol_mono', 'C04.filter_onSiteTol_mono', 'C04.onSiteTol_image',
+    'C04.onSiteTol_zero', 'C04.checkSettingBasis_zero',
     'C04.resolveSetting_unchecked', 'C04.resolveSetting_explicit', 'C04.resolveSetting_t2', 'C04.resolveSetting_t1',
     'C04.resolveSetting_t_refuses',
 ]
@@ -65,8 +66,10 @@ PARTIAL = {
                               'returned transform is a proper rotation taking the requested lattice vectors U.vects onto '
                               'the result cell and every atom onto an original atom',
     'cell_conversions': 'conventional<->primitive conversions are rotate() by the centering tables (mutually inverse by '
-                        'C16 centering_inverse) preceded by the lattice-site test (modelled: checkBasis, periodic by '
-                        'checkBasis_periodic, tied by the correspondence batch `basis`) and followed, for c2p, by cutting '
+                        'C16 centering_inverse) preceded by the family test and the lattice-site test at the caller\'s '
+                        'tolerances (modelled: identifyFamily, checkSettingBasis, resolveSetting; exact instance checkBasis, '
+                        'periodic by checkBasis_periodic; tied by the correspondence batches `basis`, `family`, `resolve`) '
+                        'and followed, for c2p, by cutting '
                         '1/8 (1/27) of the cell out with a float smallshift; that cut is not modelled in Lean; the oracle '
                         'checks on the real code, for all 8 settings (+ "t") on random compatible cells with atoms stored '
                         'on far faces / outside, that the primitive cell is the same crystal and that p2c(c2p(cell)) '
@@ -91,8 +94,20 @@ RULE = ('random cells of every crystal family + triclinic (dyadic-grid vectors, 
         'rotate calls; a third end with read + ppm dilation); one rotate case in 12 has large-index anisotropic vectors '
         '(entries up to 12, |det| <= 12); multi-type cells whose centring sites hold another type (symbols unset / shared / '
         'distinct) must be refused; refused multipliers: zero (int, numpy int, empty tuple), tuple ranges without 0, '
-        'non-integers, lists, wrong lengths; distinct = distinct canonical request line; non-trivial = more than one '
-        'replica / U != identity')
+        'non-integers, lists, wrong lengths; round 4: EVERY replication count 1..260 along one axis (+ the counts up to 1100 at '
+        'which float bookkeeping of k steps of 1/k goes wrong; thorough 1..1100 + traps to 5000) on 1-3 atom cells in every '
+        'multiplier form, two trap counts in one call, rotate with a bounding supercell spanning each trap count <= 120 (+ '
+        'samples to 260), totals and input sizes 1023 .. 4100 (thorough 65537) checked by a vectorised exact-grid oracle; '
+        'multipliers / uvws as unsigned and 8 / 16-bit numpy integers, tol as numpy scalar / array, flags as 1 / numpy.True_ '
+        '/ 0; 80 rotate cases per run with ONE atom exactly on a rung of the ladder in use (default and user ladders; single '
+        'placements verified unambiguous by exact arithmetic); conversion cells with coincidentally equal constants in every '
+        'slot (members of the family by the library\'s own constructors: b=c, beta=gamma, hexagonal c=a with check_family=True; '
+        'a=c, a=b, a=b=c, alpha=beta, alpha=gamma with check_family=False), with Cartesian coordinates rounded to 5..8 '
+        'decimals and the matching atol (any rtol, explicit smallshift as list / tuple / array, arguments by keyword or '
+        'position), half of those strained by up to 5e-5 per component and converted with rtol 2.5e-3, the t cells every '
+        'other time through the self-detecting t; conventional cells of 50-70 motif atoms; Box.identifyfamily under 8 '
+        'tolerance pairs on cells with equal / nearly equal constants; distinct = distinct canonical request line; '
+        'non-trivial = more than one replica / U != identity')
 ASSUMPTIONS = ['numpy.linalg.inv and float arithmetic of the implementation are within rtol 1e-9 of the exact value on '
                'the generated (well-conditioned, dyadic) cells',
                'the float tolerance ladder of rotate (isclose to 0/1) is the identity in exact arithmetic',
@@ -110,7 +125,16 @@ ASSUMPTIONS = ['numpy.linalg.inv and float arithmetic of the implementation are 
                'the normalized re-oriented cell (second-order terms of a cell sheared by a few ppm; computed per case from '
                'the requested vectors) results are compared at that bound instead of the rounding bound (as in C05)',
                'object-level model (SysObj): the only cached quantity of a Box is its reciprocal-vector matrix, dropped by '
-               'the vects setter; the lattice translation of rotate uses numpy.linalg.solve on the visible cell']
+               'the vects setter; the lattice translation of rotate uses numpy.linalg.solve on the visible cell',
+               'identifyFamily / closeK: the six lattice parameters (square roots / arc cosines of the cell vectors) are '
+               'handed to the model as the floats Box.a .. Box.gamma return; a comparison decided within 1e-6 (relative) of '
+               'its threshold is exempt (float vs exact arithmetic)',
+               'onSiteTol: the nearest periodic image of a site is the one the nearest-integer reduction picks, i.e. the '
+               'caller\'s atol is small against the cell (atol x |inverse cell| < 1/2); an atom-site distance within 1e-6 '
+               '(relative) of atol is exempt',
+               'a single atom exactly on a rung of rotate\'s ladder: that rung may miscount (rounding noise decides), the next '
+               'one delivers; two atoms on the same rung (can cancel in the count test) and a one-rung ladder equal to the '
+               'distance are the documented knife edges and are not generated']
 TRUSTED = ['numpy in the correspondence run',
            'Mathlib (Submodule.natAbs_det_equiv: Smith normal form over Z) - kernel-checked, standard axioms only']
 MANIFEST = {
@@ -130,7 +154,12 @@ MANIFEST = {
             'periodicity flags of the re-oriented cell (fully periodic), the multiplier rules (zero and ranges without 0 '
             'refused) and an object-level model (cell + cached reciprocal vectors + atoms + flags) with histories: '
             'coherence of the cache is an invariant of every history and supersize / rotate on the object equal supersize '
-            '/ rotate of its visible state. Tied to the code by an '
+            '/ rotate of its visible state. Round 4: the crystal family (Box.identifyfamily as a chain of closeness tests at '
+            'the caller\'s rtol / atol: b against c and beta against gamma are never consulted; the cells the family '
+            'constructors build are of that family), the family lists of the settings, the lattice-site test at the '
+            'caller\'s atol (exact sites pass any tolerance, monotone in the tolerance, periodic, the exact test at 0) and '
+            'the setting the conversion works with (t resolves to t2 for a cell passing the t2 test at the caller\'s '
+            'tolerances). Tied to the code by an '
             'exact/toleranced correspondence run on supersize '
             'and rotate (incl. refusals) and an exact lattice-arithmetic oracle on the real results (requested vectors, '
             'proper transform, payload incl. tensors, cell conversions undoing one another).',
@@ -835,7 +864,10 @@ def correspond(ctx):
             continue
         box, atoms = parse_result(out, e)
         impl_box = list(new.box.vects.ravel()) + list(new.box.origin)
-        ok = cm.allclose(impl_box, box, rtol=1e-12, atol=1e-12) and len(atoms) == new.natoms
+        slack = supersize_cleanup(np, sysm.box.vects, ns)
+        if slack:
+            ctx.extra['supersize_cleanup_bound_cases'] = ctx.extra.get('supersize_cleanup_bound_cases', 0) + 1
+        ok = cm.allclose(impl_box, box, rtol=1e-12, atol=1e-12 + slack) and len(atoms) == new.natoms
         if ok and sysm._c04['history']:
             # the object-level model (cell + cached reciprocal vectors + atoms), run through the same history from the
             # same initial state, then supersize on the object: same visible state, same supercell
@@ -851,8 +883,8 @@ def correspond(ctx):
                 hbox, hatoms = parse_result(' '.join(ht[12:]), e)
                 scale_ = float(np.abs(sysm.atoms.pos).max()) + float(np.abs(sysm.box.vects).max())
                 okh = (cm.allclose(list(sysm.box.vects.ravel()) + list(sysm.box.origin), hvis, rtol=0, atol=0)
-                       and cm.allclose(impl_box, hbox, rtol=1e-12, atol=1e-12) and len(hatoms) == new.natoms
-                       and all(t == int(new.atoms.atype[k]) and cm.allclose(new.atoms.pos[k], p_, rtol=0, atol=1e-10 * scale_)
+                       and cm.allclose(impl_box, hbox, rtol=1e-12, atol=1e-12 + slack) and len(hatoms) == new.natoms
+                       and all(t == int(new.atoms.atype[k]) and cm.allclose(new.atoms.pos[k], p_, rtol=0, atol=1e-10 * scale_ + 3 * slack)
                                and cm.allclose(payload(new, k, spec), ex, rtol=0, atol=0) for k, (t, p_, ex) in enumerate(hatoms)))
             if not okh:
                 ctx.disagree('supersize:history', f'supersize{sizes_repr(sizes)} after the history {sysm._c04["history"]} on the '
@@ -860,7 +892,7 @@ def correspond(ctx):
         if ok:
             for k, (t, p_, ex) in enumerate(atoms):
                 impl_ex = payload(new, k, spec)
-                if t != int(new.atoms.atype[k]) or not cm.allclose(new.atoms.pos[k], p_, rtol=1e-9, atol=1e-9) \
+                if t != int(new.atoms.atype[k]) or not cm.allclose(new.atoms.pos[k], p_, rtol=1e-9, atol=1e-9 + 3 * slack) \
                         or not cm.allclose(impl_ex, ex, rtol=0, atol=0):
                     ok = False
                     break
@@ -1010,8 +1042,10 @@ def gen_hex_case(rng, am):
     while True:
         a = rng.choice([2.5, 3.0, 3.25])
         org = [cm.dyadic(rng, -3, 3, 2) for _ in range(3)] if rng.random() < 0.5 else [0.0, 0.0, 0.0]
-        box = am.Box(a=a, b=a, c=rng.choice([4.0, 5.0, 5.25]), gamma=120, origin=org)
-        famname = 'hexagonal'
+        # (one cell in five with c = a: still a hexagonal cell)
+        box = am.Box(a=a, b=a, c=rng.choice([4.0, 5.0, 5.25, a, a]) if rng.random() < 0.5 else rng.choice([4.0, 5.0, 5.25]),
+                     gamma=120, origin=org)
+        famname = 'hexagonal' if box.c != box.a else 'hexagonal[c=a]'
         if rng.random() < 1 / 3:
             box, famname = reorient(rng, am, box), 'hexagonal-reoriented'
         r = rng.random()
@@ -1068,6 +1102,17 @@ def cleanup_extra(np, W):
     big = max(lx, ly, lz, abs(xy), abs(xz), abs(yz))
     # (1e-15: exact zeros show up as rounding noise here; 2e-9: margin around the threshold of the clean-up)
     return sum(abs(t) for t in (xy, xz, yz) if 1e-15 * big < abs(t) <= 2e-9 * big)
+
+
+def supersize_cleanup(np, V0, ns):
+    """supersize hands the multiplied vectors to a new Box, whose `vects` setter zeroes every component below 1e-9 of the
+    largest one: a tilt of a few 1e-9 (second-order term of a ppm shear in a history) that the input's Box kept can fall
+    under that threshold once another vector has been multiplied. Returns the sum of the magnitudes of the components
+    the clean-up may remove (0.0 for every cell of the plain generators); box and positions are then compared at that
+    bound (the same exemption as `cleanup_extra` for rotate and as in C05)."""
+    want = np.array([np.asarray(V0[i], dtype=float) * (ns[i][1] - ns[i][0]) for i in range(3)])
+    big = float(np.abs(want).max())
+    return float(sum(abs(x) for x in want.ravel() if 1e-15 * big < abs(x) <= 2e-9 * big))
 
 
 def _corr_rotate(ctx, am, sysm, fam, U, d, kind, arg, form):
@@ -1394,11 +1439,15 @@ def search(ctx, broken):
             ctx.violate('supersize:raises', f'{what} raised {type(e).__name__}: {e} for valid '
                         f'integer multipliers', dict(replay, sizes_given=sizes_repr(sizes)))
             continue
-        _check_same_crystal(ctx, 'supersize', what, sysm, spos, new, I3, M, replay)
         V0, o0 = before[1], before[2]
+        slack = supersize_cleanup(np, V0, ns)
+        if slack:
+            ctx.extra['oracle_supersize_cleanup_bound_cases'] = ctx.extra.get('oracle_supersize_cleanup_bound_cases', 0) + 1
+        _check_same_crystal(ctx, 'supersize', what, sysm, spos, new, I3, M, replay,
+                            extra_tol=4 * slack * float(np.abs(np.linalg.inv(V0)).sum(axis=0).max()))
         wantv = np.array([V0[i] * (ns[i][1] - ns[i][0]) for i in range(3)])
         wanto = o0 + sum(V0[i] * ns[i][0] for i in range(3))
-        if not (np.allclose(new.box.vects, wantv, rtol=0, atol=1e-9) and np.allclose(new.box.origin, wanto, rtol=0, atol=1e-9)):
+        if not (np.allclose(new.box.vects, wantv, rtol=0, atol=1e-9 + slack) and np.allclose(new.box.origin, wanto, rtol=0, atol=1e-9)):
             ctx.violate('supersize:box', f'{what}: box {new.box.vects.tolist()} at '
                         f'{new.box.origin.tolist()}, expected the multiplied vectors {wantv.tolist()} at {wanto.tolist()}',
                         replay)
@@ -1628,6 +1677,26 @@ def _search_counts(ctx, rng, am, scale=1):
             if not (np.allclose(new.box.vects, wantv, rtol=1e-12, atol=1e-9) and np.allclose(new.box.origin, wanto, rtol=1e-12, atol=1e-9)):
                 ctx.violate('supersize:box', f'{what}: box {new.box.vects.tolist()} at {new.box.origin.tolist()}, expected the '
                             f'multiplied vectors {wantv.tolist()} at {wanto.tolist()}', replay)
+    # two trap counts in one call
+    for _ in range(ctx.n(3, 12)):
+        sysm, fam, pts = grid_system(am, rng, 1, G=G)
+        two = rng.sample([k for k in traps if k <= 130], 2)
+        sizes = [1, 1, 1]
+        ax = rng.sample(range(3), 2)
+        sizes[ax[0]], sizes[ax[1]] = count_form(rng, two[0]), count_form(rng, two[1])
+        ns = [norm_size(x) for x in sizes]
+        M = math.prod(h - l for l, h in ns)
+        what = f'supersize{sizes_repr(sizes)} of a 1-atom {fam} cell'
+        replay = {'op': 'supersize', 'family': fam, 'case': sysm._c04, 'spos': sysm._c04['spos'], 'sizes': [list(x) for x in ns],
+                  'sizes_given': sizes_repr(sizes)}
+        ctx.stats.case('oracle:supersize-count', (tuple(two), tuple(ax), sizes_repr(sizes)))
+        try:
+            new = sysm.supersize(*sizes)
+        except Exception as e:  # noqa
+            ctx.violate('supersize:raises', f'{what} raised {type(e).__name__}: {e} for valid integer multipliers', replay)
+            continue
+        _fast_same_crystal(ctx, 'supersize', what, sysm, pts, G, new, I3, M, replay,
+                           shifts=set(itertools.product(*[range(l, h) for l, h in ns])))
     # rotate: a bounding supercell spanning n cells along one axis (n - 2 of them inside the new cell): the trap values
     # below 120 on every run, a rotating sample of the others (thorough: every n up to 130 and every trap up to 260)
     small = [k for k in traps if k <= 120]
@@ -1796,7 +1865,7 @@ def gen_conv_box(rng, am, setting, plain=False, equal=False):
     return box, label, member
 
 
-def gen_conv_case(rng, am, setting, mode='random', equal=False, decimals=None, cell_noise=False):
+def gen_conv_case(rng, am, setting, mode='random', equal=False, decimals=None, cell_noise=False, nmotif=None):
     """a conventional cell of the setting: 1-3 motif atoms per lattice point (the first one, type 1, on the lattice
     points; types, charges and tags are functions of the motif atom - the crystal has the primitive periodicity).
     Storage: `plain` = every coordinate in [0, 1); otherwise a coordinate 0 is stored as 1.0 (the far face / edge /
@@ -1804,7 +1873,7 @@ def gen_conv_case(rng, am, setting, mode='random', equal=False, decimals=None, c
     one cell vector away along each axis."""
     den, sites = CONV_SITES[setting]
     while True:
-        nm = rng.randint(1, 3)
+        nm = nmotif or rng.randint(1, 3)
         motif = [(Fraction(0), Fraction(0), Fraction(0))]
         while len(motif) < nm:
             motif.append(tuple(Fraction(rng.randint(0, 15), 16) for _ in range(3)))
@@ -1819,7 +1888,7 @@ def gen_conv_case(rng, am, setting, mode='random', equal=False, decimals=None, c
     remap = {t: i + 1 for i, t in enumerate(sorted(set(mtype)))}
     mtype = [remap[t] for t in mtype]
     mq = [cm.dyadic(rng, -2, 2, 2) for _ in range(nm)]
-    mtag = rng.sample(range(1, 50), nm)
+    mtag = rng.sample(range(1, max(50, 2 * nm)), nm)
     stored = []
     for sx in exact:
         t = list(sx)
@@ -2016,6 +2085,14 @@ def _search_conversions(ctx, rng, am):
                            sample={'op': 'c2p->p2c', 'setting': setting, 'called': case['call_setting'], 'family': case['family'],
                                    'decimals': case['decimals'], 'atol': case['atol'], 'rtol': case['rtol']})
             _run_conversion(ctx, am, case)
+    # large conventional cells (50-70 motif atoms per lattice point: rotate's bounding supercell inside the conversion then
+    # holds more than 4096 atoms for the centred settings)
+    for setting in rng.sample(sorted(CONV_SITES), ctx.n(2, 8)):
+        case = gen_conv_case(rng, am, setting, mode='plain', nmotif=rng.randint(50, 70))
+        case['op'], case['call_setting'], case['check_basis'] = 'conversion', setting, True
+        ctx.stats.case('oracle:conversion-large', (setting, len(case['atype']), repr(case['vects'])),
+                       sample={'op': 'c2p->p2c', 'setting': setting, 'family': case['family'], 'natoms': len(case['atype'])})
+        _run_conversion(ctx, am, case)
     # multi-type cells whose centring sites hold another type: refusal required
     for setting in CONV_SITES:
         if NLAT[setting] == 1:
@@ -2056,8 +2133,16 @@ def _run_conversion(ctx, am, case):
             + (f", history on the object {case['history']}" if case.get('history') else ''))
     before = conv.atoms.pos.copy()
     try:
-        prim, T1 = conv.dump('conventional_to_primitive', setting=case['call_setting'], return_transform=True,
-                             check_basis=(case['check_basis'] if nb % 5 else (np.True_ if case['check_basis'] else 0)), **kw)
+        if dec is not None and nb % 4 == 1:
+            # the documented signature dump(system, setting, smallshift, rtol, atol, check_basis, check_family,
+            # return_transform), arguments given by position
+            from atomman.dump.conventional_to_primitive.dump import dump as c2p_dump
+            prim, T1 = c2p_dump(conv, case['call_setting'], kw.get('smallshift'), kw.get('rtol', 1e-5), kw['atol'],
+                                case['check_basis'], kw.get('check_family', True), True)
+            what += ' (arguments by position)'
+        else:
+            prim, T1 = conv.dump('conventional_to_primitive', setting=case['call_setting'], return_transform=True,
+                                 check_basis=(case['check_basis'] if nb % 5 else (np.True_ if case['check_basis'] else 0)), **kw)
         conv2, T2 = prim.dump('primitive_to_conventional', setting=setting, return_transform=True)
     except Exception as e:  # noqa
         if isinstance(e, ValueError) and 'Filtering failed' in str(e) and any(x < 0 or x > 1 for t in case['stored'] for x in t):
